@@ -167,8 +167,46 @@ func (x *Exec) finishLib(st *State, res *Val) {
 	if res == nil {
 		return
 	}
+	x.defineVal(st, res)
 	for _, wf := range wellFormed(res) {
 		st.Assume(wf)
+	}
+}
+
+func termSize(t *Term, limit int) int {
+	n := 1
+	for _, a := range t.Args {
+		n += termSize(a, limit-n)
+		if n > limit {
+			return n
+		}
+	}
+	return n
+}
+
+// define names a non-trivial term by a fresh constant (an SMT-level let), so that
+// later terms stay small and share structure.
+func (x *Exec) define(st *State, t *Term, hint string) *Term {
+	if t == nil || t.K != TApp || termSize(t, 6) <= 5 {
+		return t
+	}
+	c := Const(freshName("v:"+hint), t.Sort)
+	defConsts.Store(c.Op, true)
+	st.PC = append(st.PC, Eq(c, t))
+	return c
+}
+
+func (x *Exec) defineVal(st *State, v *Val) {
+	switch v.K {
+	case VInt, VBool, VStr, VTime, VBig, VCoins:
+		v.T = x.define(st, v.T, "r")
+		if v.K == VBig {
+			v.Nil = x.define(st, v.Nil, "n")
+		}
+	case VTuple, VStruct:
+		for _, f := range v.Fields {
+			x.defineVal(st, f)
+		}
 	}
 }
 
